@@ -4,7 +4,7 @@ import fcntl, glob, hashlib, json, os, shutil, subprocess, sys, time
 
 VERIF = os.path.dirname(os.path.dirname(os.path.abspath(__file__)))
 REPO = os.environ.get('ASCENT_REPO', '/repo')
-WORK = os.path.join(VERIF, '.work')
+WORK = os.environ.get('VERIF_WORK') or os.path.join(VERIF, '.work')
 DRIVER_DIR = os.path.join(VERIF, 'driver')
 DRIVER = os.path.join(DRIVER_DIR, 'target', 'debug', 'ascent-facts')
 CORPUS_WS = os.path.join(WORK, 'corpus_ws')
